@@ -104,4 +104,8 @@ def logStats (P : ParkP) (k : Park) (dt : Rat) : Park :=
       else k
     { k' with frac := frac, currExp := 0, currExpCar := 0, currDur := 0, nConsec := 0 }
 
+/-- `EVPark.reset_status` (between Monte Carlo iterations, saving on or off): no cars, no exchange, every
+interruption counter — running and accumulated — back to zero -/
+def reset (_k : Park) : Park := {}
+
 end Relsad.EV
